@@ -64,6 +64,12 @@ func (m *modeEnv) boolVals(v ssa.Value, depth int) (bool, bool) {
 	if depth > 20 {
 		return true, true
 	}
+	// a mode parameter that a function literal captures lives in a cell; a load of that cell is the parameter
+	if ld, isLoad := v.(*ssa.UnOp); isLoad {
+		if p := spilledParam(ld); p != nil {
+			v = p
+		}
+	}
 	switch x := v.(type) {
 	case *ssa.Const:
 		if x.Value != nil && x.Value.Kind() == constant.Bool {
@@ -85,6 +91,11 @@ func (m *modeEnv) boolVals(v ssa.Value, depth int) (bool, bool) {
 				a, b := x.X, x.Y
 				if k == 1 {
 					a, b = b, a
+				}
+				if ld, isLoad := a.(*ssa.UnOp); isLoad {
+					if sp := spilledParam(ld); sp != nil {
+						a = sp
+					}
 				}
 				if p, ok := a.(*ssa.Parameter); ok {
 					if s, ok := m.strs[p]; ok {
